@@ -10,6 +10,8 @@ get_all_edit_contexts(), edited_cost(), tighten-to-exhaustion without ever readi
 Oracle: no run raises; every run ends with cost c0 and script S0; a resumed edits() lists what an uninterrupted one
 lists; rendering leaves cost and script unchanged.
 """
+import io
+
 from .. import core, sched
 from ..core import EventLog, Streams, Violation
 from ..driver import result, ddmin_list
@@ -24,25 +26,20 @@ MACROS = ["diff_quiet", "diff_clock", "contexts", "contexts_quiet", "edited_cost
           "bounds_twice", "cli_status"]
 
 
-class Sink:
-    """A private output stream for renders (not fd 1/2: the raw write path)."""
+class Sink(io.StringIO):
+    """A private in-memory output stream for renders, like the StringIO a library user would pass (no file
+    descriptor: fileno() raises io.UnsupportedOperation, the raw write path); isatty() is settable."""
 
     def __init__(self, tty):
+        super().__init__()
         self.tty = tty
-        self.parts = []
-
-    def write(self, s):
-        self.parts.append(s)
-        return len(s)
-
-    def flush(self):
-        pass
 
     def isatty(self):
         return self.tty
 
-    def fileno(self):
-        return 77
+    @property
+    def parts(self):
+        return [self.getvalue()]
 
 
 def formatter_for(family):
@@ -73,7 +70,9 @@ def hygiene():
         tqdm.tqdm._instances.clear()
     except Exception:
         pass
-    gprinter.ANSI_CONTEXT_STACK.clear()
+    stack = getattr(gprinter, "ANSI_CONTEXT_STACK", None)   # process-wide on the pinned tree; may not exist at all
+    if stack is not None:
+        stack.clear()
 
 
 def render(family, ret, ansi, tty, quiet):
@@ -438,7 +437,9 @@ def render_outcome(family, ret, ansi, tty, quiet):
         site = core.graphtage_site(e)
         if "outside-graphtage" in site and not isinstance(e, RecursionError):
             raise
-        gprinter.ANSI_CONTEXT_STACK.clear()
+        stack = getattr(gprinter, "ANSI_CONTEXT_STACK", None)
+        if stack is not None:
+            stack.clear()
         return site
 
 
